@@ -164,6 +164,16 @@ def r4(ctx: Ctx) -> None:
             ctx.report(f.where, f"nondeterminism {ast.unparse(x)[:60]}", f"{f.qualname} (reachable from the relocation entry points) uses a nondeterministic source",
                        lineno=x.lineno)
     ctx.site(FORCE, "functions scanned (tool + reachable frame library)", functions=n)
+    # hidden state: a memoised helper or a module-level object in the relocation code makes the result depend on what was
+    # relocated before in the same process (the C20 inventory, restricted to the code the relocation runs)
+    from . import C20 as _c20
+    names = {g.qualname for g in allf}
+    state = {k: w for k, w in _c20.discover_state(ctx).items()
+             if k[0] == FORCE or ("@" in k[1] and k[1].split("@")[0] in names and (k[0].startswith("frame/") or k[0] == FORCE))}
+    ctx.site(FORCE, "no process-wide state (memo caches, module-level objects / containers) in the relocation code", state=sorted(k[1] for k in state))
+    for k, w in sorted(state.items()):
+        ctx.report(f"{k[0]}::{k[1]}", f"hidden-state {k[1]}", f"{k[1]} is process-wide state used by the relocation: the layout returned for a design depends on the designs "
+                   "relocated earlier in the same process (a cache keyed by a Module is keyed by its name only)", lineno=0)
 
 
 @rule("C13", "R5.argmin", "DATAFLOW",
